@@ -30,6 +30,11 @@
    Multi-byte characters (DoIf part U): contains_any (meaning per CHARACTER) and the substring operators over
    characters that share a UTF-8 lead byte (e-acute/e-grave, EURO/RUBLE/TRADE MARK, Cyrillic), only a
    continuation byte (e-acute/COPYRIGHT) and 4-byte characters; mutant "256-entry byte table" rejected by TLC.
+   Escaped strings (DoIf part E): string values containing newline, quote, backslash, and U+00E9 / U+1F600 written
+   as \\uXXXX escapes are decoded from their JSON text before every evaluation series (own processor / pipeline per
+   rule), so the node reaches the checker in its escaped form: byte_len_cmp measures the value, the field ops see
+   the value, and every binary and/or over a length leaf and a field leaf on the same field is evaluated in both
+   operand orders (field ops unescape the node in place); mutant "escaped length" rejected by TLC.
    ts_cmp against `value: now` (DoIf part N): value_shift of -1h / 0 / +1h, update_interval 10s / 1m, event
    times rendered relative to the moment of the replay at +-30 / 90 / 150 minutes; the documented threshold is
    now + value_shift + [0, update_interval], events within 20 minutes of it are not judged and all events in
@@ -57,7 +62,9 @@ LEVEL = "model_checking"
 CH = {1: "a", 2: "A", 3: "\u0130", 4: "i", 5: "b",
       # multi-byte characters of part U (the same table as CharBytes in specs/DoIf.tla)
       40: "\u00e9", 41: "\u00e8", 42: "\u20ac", 43: "\u20bd", 44: "\u2122", 45: "\u0451", 46: "\u044a", 47: "\u043f",
-      48: "\u00a9", 49: "\U0001f600", 50: "\U0001f601"}
+      48: "\u00a9", 49: "\U0001f600", 50: "\U0001f601",
+      # always written as JSON escapes
+      60: "\n", 61: '"', 62: "\\"}
 MODES = {"and": 0, "or": 1, "and_prefix": 2, "or_prefix": 3}
 
 
@@ -97,6 +104,22 @@ MAX_NOW_DRIFT_S = 8 * 60
 
 def enc(o):
     return json.dumps(o, separators=(",", ":"), ensure_ascii=False)
+
+
+def jtext(v):
+    """abstract JSON value -> compact JSON text; an `esc` string is written with \\uXXXX escapes (surrogate pairs),
+    so that the decoder's node starts in its escaped form."""
+    k = v["k"]
+    if k == "obj":
+        return "{" + ",".join(json.dumps(f["name"]) + ":" + jtext(f["v"]) for f in v["fs"]) + "}"
+    if k == "arr":
+        return "[" + ",".join(jtext(x) for x in v["xs"]) + "]"
+    if k == "str":
+        return json.dumps(s_of(v["s"]), ensure_ascii=bool(v.get("esc")))
+    return enc(val_of(v))
+
+
+FRESH_PARTS = ("D:E",)      # events decoded again from their text before every evaluation series
 
 
 def lookup(v, path):
@@ -261,7 +284,7 @@ def build_cases(ctx, doif_printed, mf_printed):
         for o in printed:
             if "events" in o:
                 key = pfx + ":" + o["part"]
-                sets[key] = [enc(val_of(e)) for e in o["events"]]
+                sets[key] = [jtext(e) for e in o["events"]]
                 abs_events[key] = o["events"]
         # TLC's workers print in no particular order: fix one, so that a seed reproduces a run
         for o in sorted((o for o in printed if "events" not in o), key=lambda o: (o["part"], json.dumps(o["rule"], sort_keys=True))):
@@ -301,7 +324,7 @@ def load_ndjson(path):
 def run_harness(ctx, sets, rules, tag=""):
     evp = os.path.join(ctx.scratch, "c14_events%s.json" % tag)
     rp = os.path.join(ctx.scratch, "c14_rules%s.ndjson" % tag)
-    json.dump({"seed": ctx.seed, "events": sets}, open(evp, "w"), ensure_ascii=False)
+    json.dump({"seed": ctx.seed, "events": sets, "fresh": [k for k in FRESH_PARTS if k in sets]}, open(evp, "w"), ensure_ascii=False)
     with open(rp, "w") as f:
         for r in rules:
             f.write(json.dumps({"id": r.id, "kind": r.kind, "set": r.set, "cfg": r.cfg}, ensure_ascii=False) + "\n")
@@ -581,6 +604,7 @@ def run(ctx):
         if mu.ok or mu.violated != "SelectorDecides":
             raise vlib.Infra("spec mutant %s was not rejected by TLC: %s" % (what, mu.violated))
     for cfgname, what in (("DoIf_mutant_shift.cfg", "~M_ShiftOnce (value_shift applied twice)"),
+                          ("DoIf_mutant_esclen.cfg", "~M_LenOfValue (byte_len_cmp of the escaped text)"),
                           ("DoIf_mutant_bytetable.cfg", "~M_ContainsAnyRunes (contains_any over a byte table)")):
         mu = ctx.tlc("DoIf", cfgname, timeout=300, deadlock=False, name="DoIf/" + cfgname[5:-4])
         if mu.ok or mu.violated != "ImplRefinesDecl":
